@@ -220,6 +220,59 @@ func c16LoopFacts(l *leanFile, name string, fd *ast.FuncDecl) {
 		return true
 	})
 	l.p("def %sStartPacket : String := %q", name, start)
+
+	// the reader goroutine's retry branch after a failed RecvSidecarPkt: the
+	// statements after the back-off (the re-initialisation of the mailbox must
+	// not be able to end the reader)
+	var retry []string
+	found := false
+	ast.Inspect(fd.Body, func(n ast.Node) bool {
+		cc, ok := n.(*ast.CommClause)
+		if !ok || cc.Comm == nil {
+			return true
+		}
+		es, ok := cc.Comm.(*ast.ExprStmt)
+		if !ok || !strings.Contains(exprString(es.X), "retryTimer.backOff") {
+			return true
+		}
+		found = true
+		for _, st := range cc.Body {
+			switch x := st.(type) {
+			case *ast.AssignStmt:
+				lhs := []string{}
+				for _, e := range x.Lhs {
+					lhs = append(lhs, exprString(e))
+				}
+				rhs := ""
+				if len(x.Rhs) == 1 {
+					if c, ok := x.Rhs[0].(*ast.CallExpr); ok {
+						rhs = strings.TrimPrefix(exprString(c.Fun), "a.cfg.")
+					}
+				}
+				retry = append(retry, strings.Join(lhs, ",")+" "+x.Tok.String()+" "+rhs)
+			case *ast.BranchStmt:
+				retry = append(retry, x.Tok.String())
+			case *ast.ReturnStmt:
+				retry = append(retry, "return")
+			case *ast.IfStmt:
+				kind := "if"
+				ast.Inspect(x, func(m ast.Node) bool {
+					if _, ok := m.(*ast.ReturnStmt); ok {
+						kind = "if-return"
+					}
+					return true
+				})
+				retry = append(retry, kind)
+			default:
+				retry = append(retry, "stmt")
+			}
+		}
+		return true
+	})
+	if !found {
+		fail("C16: %s: retry branch of the mailbox reader not found", name)
+	}
+	l.p("def %sReaderRetry : List String := %s", name, leanStrList(retry))
 }
 
 func genC16() {
@@ -369,6 +422,51 @@ func genC16() {
 			fail("C16: Start: auto-negotiation resume condition not found")
 		}
 	}
+	// clientdb.removeBidTemplate: which conditions return nil, and whether a
+	// missing template bucket (second terminal update) is tolerated
+	cdb := pkgFiles("clientdb")
+	var rbt []string
+	if fd := findFunc(cdb, "removeBidTemplate"); fd != nil {
+		for _, st := range fd.Body.List {
+			switch x := st.(type) {
+			case *ast.IfStmt:
+				ret := "?"
+				if len(x.Body.List) == 1 {
+					if r, ok := x.Body.List[0].(*ast.ReturnStmt); ok && len(r.Results) == 1 {
+						ret = exprString(r.Results[0])
+					}
+				}
+				rbt = append(rbt, "if "+strings.Join(strings.Fields(exprString(x.Cond)), " ")+" return "+ret)
+			case *ast.ReturnStmt:
+				if len(x.Results) == 1 {
+					rbt = append(rbt, "return "+strings.Join(strings.Fields(exprString(x.Results[0])), " "))
+				}
+			case *ast.AssignStmt:
+				if len(x.Rhs) == 1 {
+					if c, ok := x.Rhs[0].(*ast.CallExpr); ok {
+						rbt = append(rbt, exprString(x.Lhs[0])+" := "+exprString(c.Fun))
+					}
+				}
+			}
+		}
+	} else {
+		fail("C16: clientdb.removeBidTemplate not found")
+	}
+	l.p("def removeBidTemplateShape : List String := %s", leanStrList(rbt))
+	// DB.UpdateSidecar: the guard under which the template is removed
+	upd := ""
+	if fd := findFunc(cdb, "DB.UpdateSidecar"); fd != nil {
+		ast.Inspect(fd.Body, func(n ast.Node) bool {
+			if x, ok := n.(*ast.IfStmt); ok && strings.Contains(exprString(x.Cond), "IsTerminal") {
+				upd = strings.Join(strings.Fields(exprString(x.Cond)), " ")
+			}
+			return true
+		})
+	}
+	if upd == "" {
+		fail("C16: DB.UpdateSidecar: terminal-state guard not found")
+	}
+	l.p("def updateSidecarTemplateGuard : String := %q", upd)
 	l.p("def resumeRemap : List (Nat × Nat) := [%s]", remap)
 	l.p("def resumeCond : String := %q", autoCond)
 	l.p("def resumePackets : List String := %s", leanStrList(pkts))
